@@ -1,6 +1,7 @@
-(* GENERATED by `python -m harness.props.c15_ctx gen-witness` from traced sequential runs of the real
-   strax code (skeletons of Context.get_array); the check re-derives these terms on every run and
-   compares them with this file (kernel cross-check).  Concrete refutations of ctx_race_free. *)
+(* FROZEN: generated from traced sequential runs of the strax code BEFORE /repo commit d202a14 (call skeletons
+   of Context.get_array on the pinned tree, harness of that time).  Concrete refutations of race freedom of
+   the pinned transition system (finding D7a / D7b); the interleavings are replayed on the current code by
+   harness/props/c15_ctx.py: PINNED_WITNESSES (they must not fail any more). *)
 From SV Require Import Base.Prelude Model.CtxRacePinned.
 
 (* wa1: graph [('src', ()), ('aa', ('src',))], targets ('src', 'aa'), cold cache, 2 worker threads x 1 run *)
